@@ -195,15 +195,25 @@ def expected_construct(cj, desc):
     return e
 
 
-def run_desc(ctx, dialect, desc, meta, pending, expect_ok=True):
+def records_of(dialect, desc):
+    """-> ([(the op description that wrote the statement, construct, emitted, raw)], error).  A `seq` description is a
+    sequence of operations emitted in ONE fresh MigrationContext; every statement is attributed to its own operation."""
+    if desc.get("op") == "seq":
+        out, err = I.apply_seq(dialect, desc["ops"])
+        return [(desc["ops"][i], el, em, raw) for i, el, em, raw in out], err
+    recs, err = I.apply_op(I.Ctx.get(dialect), desc)
+    return [(desc, el, em, raw) for el, em, raw in recs], err
+
+
+def run_desc(ctx, dialect, whole, meta, pending, expect_ok=True):
     c = I.Ctx.get(dialect)
-    recs, err = I.apply_op(c, desc)
+    recs, err = records_of(dialect, whole)
     ctx.evaluation()
     if err is not None:
         ctx.hist("impl_error", "%s:%s" % (meta.get("template"), type(err).__name__))
         if expect_ok:
-            ctx.disagree("ident.op", {"dialect": dialect, "desc": desc}, "raised %r" % (err,), "model: every construct of this template renders")
-    for idx, (el, emitted, raw) in enumerate(recs):
+            ctx.disagree("ident.op", {"dialect": dialect, "desc": whole}, "raised %r" % (err,), "model: every construct of this template renders")
+    for idx, (desc, el, emitted, raw) in enumerate(recs):
         cj = I.describe(c, el)
         if cj is None:
             # compiled by one of SQLAlchemy's own constructs on behalf of the operation: no model, but the statement is
@@ -213,7 +223,7 @@ def run_desc(ctx, dialect, desc, meta, pending, expect_ok=True):
             if dialect == "mssql" and type(el).__name__ in ("SetColumnComment", "DropColumnComment", "SetTableComment", "DropTableComment"):
                 ctx.hist("not_judged", "mssql:%s (sp_addextendedproperty 'schema', [s], 'table', [t]: SQLAlchemy's own non-dotted form)" % type(el).__name__)
                 continue
-            inp = {"dialect": dialect, "desc": desc, "index": idx, "construct": {"c": "sa:" + type(el).__name__}, **meta}
+            inp = {"dialect": dialect, "desc": whole, "index": idx, "by": desc, "construct": {"c": "sa:" + type(el).__name__}, **meta}
             if emitted is None:
                 ctx.disagree("ident.describe", inp, {"raw": raw}, None)
                 continue
@@ -229,7 +239,7 @@ def run_desc(ctx, dialect, desc, meta, pending, expect_ok=True):
             pending.append((inp, emitted, {"op": "ident.mentions", "kind": dialect, "reserved": c.reserved(names),
                                            "schema": None if sch is None else I.name_str(sch), "alts": alts, "emitted": emitted}))
             continue
-        inp = {"dialect": dialect, "desc": desc, "index": idx, "construct": cj, **meta}
+        inp = {"dialect": dialect, "desc": whole, "index": idx, "by": desc, "construct": cj, **meta}
         if cj.get("c") == "?" or emitted is None:
             ctx.disagree("ident.describe", inp, {"raw": raw}, cj)
             continue
@@ -269,11 +279,21 @@ def flush(ctx, pending):
             ctx.hist("opaque_text_not_lexically_complete", key)
         names = I.all_names(cj)
         c = I.Ctx.get(inp["dialect"])
-        if inp["desc"].get("schema") is not None or any(c.prep._requires_quotes(n) for n in names if n):
+        if (inp.get("by") or inp["desc"]).get("schema") is not None or any(c.prep._requires_quotes(n) for n in names if n):
             ctx.nontrivial(emitted)
         if a.get("spec") is not True:
             flags = name_class_flags(names, c.prep.final_quote)
-            ctx.fail(inp, "%s: the text Alembic wrote does not tokenise into the requested identifiers / schema qualification" % key,
+            kind = ("seq/" + key) if inp["desc"].get("op") == "seq" else key
+            fl = {"input": inp, "impl": {"emitted": emitted}}
+            if inp["desc"].get("op") != "seq" and classify(fl) is None:
+                # the per-dialect context is shared by the cases of a stream: does the operation fail on its own?
+                alone, _ = _spec_of(ctx, inp["dialect"], {"op": "seq", "ops": [inp["desc"]]})
+                if alone and all(r["spec"] is True for r in alone):
+                    kind = "state-dependent/" + key
+                    inp = dict(inp, note="passes when emitted alone in a fresh MigrationContext: the text depends on what the same "
+                                         "context emitted before (see the seq/ failures for self-contained sequences)")
+            ctx.fail(inp, "%s: the text Alembic wrote does not tokenise into the requested identifiers / schema qualification "
+                          "(object forms: plain dotted str schema = multi-part, quoted_name = one identifier, quote=True = delimited)" % kind,
                      impl={"emitted": emitted, "tokens": dec_toks(a.get("toks"))}, tags=[key] + flags)
         if len(ctx.samples) < ctx.max_samples and ctx.rng("sample" + emitted).random() < 0.002:
             ctx.sample({"dialect": inp["dialect"], "op": inp["desc"], "emitted": emitted, "spec": a.get("spec")})
@@ -355,6 +375,54 @@ def gen_impl_paths(ctx, rng, schema_kinds, reps):
                         yield d, {"op": "drop_column", "t": nm_(), "col": nm_(), "schema": schema, "kw": kw}, \
                             {"template": "mssql_drop_column%s" % ("".join("DCF"[i] for i in range(3) if flags[i]) or "-"),
                              "classes": [], "schema_kind": sk}
+
+
+FORMS = ["str", "qn_none", "qn_true"]
+
+
+def in_form(text, form):
+    return text if form == "str" else {"s": text, "q": None if form == "qn_none" else True}
+
+
+def gen_sequences(ctx, rng, reps):
+    """Sequences of two operations emitted in ONE fresh MigrationContext in which the same text is given first in one
+    object form and later in another (all ordered pairs of {plain str, quoted_name(quote=None), quoted_name(quote=True)}):
+    (a) a schema literally containing a dot (plain str = multi-part, quoted_name = one identifier), same table text;
+    (b) a table / column name that needs no quoting, plain vs forced quote=True, with and without a schema.
+    Every statement is judged against the operation that wrote it."""
+    def ops_for(d, t, schema, col, rng):
+        cands = [
+            {"op": "rename_table", "t": t, "new": G.word(rng, 3, 7), "schema": schema},
+            {"op": "drop_column", "t": t, "col": col, "schema": schema},
+            {"op": "add_column", "t": t, "col": col, "schema": schema, "type": "INTEGER", "kw": {}},
+            {"op": "alter_column", "t": t, "col": col, "schema": schema, "kw": {"nullable": True, "existing_type": "INTEGER"}},
+            {"op": "alter_column", "t": t, "col": col, "schema": schema, "kw": {"new_column_name": G.word(rng, 3, 7), "existing_type": "INTEGER"}},
+        ]
+        if d == "mssql":
+            cands.append({"op": "drop_column", "t": t, "col": col, "schema": schema, "kw": {"mssql_drop_default": True}})
+        if d in ("postgresql", "oracle"):
+            cands.append({"op": "alter_column", "t": t, "col": col, "schema": schema, "kw": {"comment": "c"}})
+        return rng.choice(cands)
+
+    for d in I.ALL_DIALECTS:
+        p = I.Ctx.get(d).prep
+        for f1 in FORMS:
+            for f2 in FORMS:
+                if f1 == f2:
+                    continue
+                for _ in range(reps):
+                    # (a) dotted schema text, identical table text
+                    stext = G.plain(rng, p.reserved_words) + "." + G.plain(rng, p.reserved_words)
+                    ttext = G.plain(rng, p.reserved_words)
+                    col = G.plain(rng, p.reserved_words)
+                    seq = [ops_for(d, ttext, in_form(stext, f1), col, rng), ops_for(d, ttext, in_form(stext, f2), col, rng)]
+                    yield d, {"op": "seq", "ops": seq}, {"template": "seq:schema:%s>%s" % (f1, f2), "classes": [], "schema_kind": "dotted-forms"}
+                    # (b) plain table text, plain vs forced-quote forms, with / without schema
+                    if "qn_none" not in (f1, f2) or True:
+                        sch = rng.choice([None, G.plain(rng, p.reserved_words)])
+                        seq = [ops_for(d, in_form(ttext, f1), sch, col, rng), ops_for(d, in_form(ttext, f2), sch, col, rng)]
+                        yield d, {"op": "seq", "ops": seq}, {"template": "seq:table:%s>%s" % (f1, f2), "classes": [],
+                                                             "schema_kind": "none" if sch is None else "plain"}
 
 
 SA_CLASSES = ["plain", "reserved", "mixed", "space", "qchar", "squote", "nonascii"]
@@ -556,6 +624,13 @@ def run(ctx, rng_name="main", scale=1):
         if len(pending) >= 4000:
             flush(ctx, pending)
     flush(ctx, pending)
+    for d, desc, meta in gen_sequences(ctx, rng, (2 if not ctx.thorough else 10) * scale):
+        meta["stream"] = "sequences"
+        ctx.hist("stream", "sequences")
+        ctx.hist("dialect", d)
+        ctx.hist("template", meta["template"])
+        run_desc(ctx, d, desc, meta, pending)
+    flush(ctx, pending)
     check_raises(ctx)
     ctx.exhaustive = True  # the class product is enumerated; inside a class names are random
 
@@ -575,7 +650,7 @@ def classify(failure):
     allnames = I.all_names(cj)
     if any("\t" in n for n in allnames) and "\t" not in emitted:
         return "C14-TAB"
-    sch = (inp.get("desc") or {}).get("schema")
+    sch = (inp.get("by") or inp.get("desc") or {}).get("schema")
     if (d in ("mysql", "mariadb") and k == "mysqlDropConstraint" and isinstance(sch, str) and "." in sch
             and emitted.startswith("ALTER TABLE `%s`." % sch.replace("`", "``").replace("%", "%%"))):
         return "C14-MYSQL-DROP-DOTTED"
@@ -584,18 +659,18 @@ def classify(failure):
     return None
 
 
-def _spec_of(ctx, dialect, desc):
+def _spec_of(ctx, dialect, whole):
     c = I.Ctx.get(dialect)
-    recs, err = I.apply_op(c, desc)
+    recs, err = records_of(dialect, whole)
     out = []
-    for idx, (el, emitted, raw) in enumerate(recs):
+    for idx, (desc, el, emitted, raw) in enumerate(recs):
         cj = I.describe(c, el)
         if cj is None or cj.get("c") == "?":
             continue
         ecj = expected_construct(cj, desc)
         a = ctx.drv.ask1({"op": "ident.stmt", "kind": dialect, "reserved": c.reserved(I.all_names(cj) + I.all_names(ecj)),
                           "construct": cj, "specConstruct": ecj, "emitted": emitted})
-        out.append({"index": idx, "construct": cj, "emitted": emitted, "model": dec(a.get("emit")), "spec": a.get("spec"), "tokens": dec_toks(a.get("toks"))})
+        out.append({"index": idx, "by": desc, "construct": cj, "emitted": emitted, "model": dec(a.get("emit")), "spec": a.get("spec"), "tokens": dec_toks(a.get("toks"))})
     return out, err
 
 
